@@ -16,6 +16,12 @@ def _tgt(v):
     if isinstance(v, SliceV): v = v.seq
     return getattr(v, 'uid', None)
 
+def _iter_clone(it, **kw):
+    r = IterV(kw.get('seq', it.seq), kw.get('by_ref', it.by_ref), kw.get('kind', it.kind), kw.get('maps', it.maps), kw.get('enum', it.enum))
+    for k_, v_ in it.__dict__.items():
+        if k_ not in ('seq', 'by_ref', 'kind', 'maps', 'enum'): setattr(r, k_, v_)
+    return r
+
 def opt_none(ty=None): return EnumV('core::option::Option', 'None', {}, ty=ty)
 def opt_some(v, ty=None): return EnumV('core::option::Option', 'Some', {'0': v}, ty=ty)
 
@@ -66,6 +72,15 @@ def call(I, name, args, e):
         if m.group(2) == 'new': return args[0]
         args[0].place.set(args[1]); return UNIT
 
+    # ---------------- smart-pointer views and operators on references
+    if n in ('<alloc::boxed::Box<T, A> as core::convert::AsRef<T>>::as_ref', '<alloc::boxed::Box<T, A> as core::borrow::Borrow<T>>::borrow',
+             '<alloc::boxed::Box<T, A> as core::ops::Deref>::deref', '<alloc::vec::Vec<T, A> as core::convert::AsRef<[T]>>::as_ref',
+             '<alloc::vec::Vec<T, A> as core::ops::Deref>::deref', '<[T] as core::convert::AsRef<[T]>>::as_ref', '<[T; N] as core::convert::AsRef<[T]>>::as_ref') and args:
+        return args[0]
+    mo_ = re.match(r'^<&?(?:\'\w+ )?\w+ as core::ops::(Shl|Shr|Add|Sub|Mul|BitOr|BitAnd|BitXor|Div|Rem)<&?(?:\'\w+ )?\w+>>::\w+$', n)
+    if mo_ and len(args) == 2:
+        x_, y_ = deref(args[0]), deref(args[1])
+        if is_term(x_) and is_term(y_): return I.arith(mo_.group(1), x_, y_, ty, e)
     # ---------------- the `?` operator: Try::branch / FromResidual::from_residual on Result and Option
     if n in ('<core::result::Result<T, E> as core::ops::Try>::branch', '<core::option::Option<T> as core::ops::Try>::branch') and isinstance(a0, EnumV):
         is_res = 'Result' in n; okv = 'Ok' if is_res else 'Some'
@@ -137,6 +152,7 @@ def call(I, name, args, e):
         s = a0; v = args[1]
         if not isinstance(s, SeqV): return I.top('push on %r' % (s,), e)
         if s.is_bytes():
+            if isinstance(v, RefV) and is_term(deref(v)): v = deref(v)
             if not is_term(v): return I.top('push non-scalar byte', e)
             s.segs.append(('int', v, 1))
         else:
@@ -397,6 +413,8 @@ def call(I, name, args, e):
         return I.top('Option::iter of %r' % (a0,), e)
     if n.endswith('as core::iter::Iterator>::flatten') or n == 'core::iter::Iterator::flatten':
         if isinstance(a0, IterV) and a0.kind == 'option' and not a0.maps: return IterV(a0.seq, a0.by_ref, kind='optflat')
+        if isinstance(a0, IterV):
+            r_ = IterV(None, False, kind='flat_map'); r_.inner = a0; r_.fn = None; return r_      # the elements of every element
         return I.top('flatten of %r' % (a0,), e)
     if n in ('alloc::slice::<impl [T]>::concat', 'alloc::slice::<impl [V]>::concat') and isinstance(a0, SeqV) and not a0.stores:
         # [[u8; N]] / [Vec<u8>] -> Vec<u8>: the elements' bytes one after the other
@@ -463,10 +481,12 @@ def call(I, name, args, e):
             r_ = IterV(None, False, kind='chain'); r_.parts = (a0, b0); return r_
         return I.top('chain of %r and %r' % (a0, b0), e)
     if n.endswith('as core::iter::Iterator>::enumerate') or n == 'core::iter::Iterator::enumerate':
-        if isinstance(a0, IterV): return IterV(a0.seq, a0.by_ref, a0.kind, a0.maps + ['enumerate'], a0.enum)
+        if isinstance(a0, IterV): return _iter_clone(a0, maps=a0.maps + ['enumerate'])
         return I.top('enumerate over %r' % (a0,), e)
     if n.endswith('as core::iter::Iterator>::copied') or n.endswith('as core::iter::Iterator>::cloned') or n in ('core::iter::Iterator::copied', 'core::iter::Iterator::cloned'):
-        if isinstance(a0, IterV): return IterV(a0.seq, False, a0.kind, a0.maps, a0.enum)
+        if isinstance(a0, IterV):
+            if a0.kind in ('chain', 'flat_map', 'zip'): return a0       # (elements of composite iterators are dereferenced where they are used)
+            return _iter_clone(a0, by_ref=False)
     if n.endswith('as core::iter::Iterator>::sum') or n == 'core::iter::Iterator::sum':
         acc = Cell(ZERO); key_ = '$sum%d' % id(acc)
         I.frame().vars[key_] = acc
